@@ -24,7 +24,7 @@ ASSUMPTIONS = [
 ]
 BOUNDS = {"quick": {"variables": "3 exhaustive (120 topologies x 3 operations), 4 sampled", "mention patterns": "full / none / seeded"}, "thorough": {"variables": "3 and 4 exhaustive (120 + 330 topologies), 5 sampled", "mention patterns": "full / none / seeded / per-var"}}
 OPTS = {"quick": {"tier_budget_s": 230, "max_paths": 8000, "job_budget_s": 50, "witness_rate": 0.03, "max_pass_replays": 300}, "thorough": {"tier_budget_s": 2400, "max_paths": 60000, "job_budget_s": 400, "witness_rate": 0.01, "max_pass_replays": 3000}}
-REACH = {"quick": ["OK", "IAE", "op:compose", "op:quotient", "op:merge", "op:rename", "op:copy", "op:ctor", "op:refines", "mode:adversarial", "mode:obedient", "illegal-request-rejected"]}
+REACH = {"quick": ["OK", "IAE", "op:compose", "op:quotient", "op:merge", "op:rename", "op:copy", "op:ctor", "op:refines", "mode:adversarial", "mode:obedient", "mode:polyhedral", "illegal-request-rejected"]}
 
 
 def jobs(tier, seed):
@@ -65,6 +65,15 @@ def jobs(tier, seed):
         out.append(dict(base, kind="rename", op="rename"))
         out.append(dict(base, kind="copy", op="copy"))
         out.append(dict(base, kind="refines", op="refines"))
+    # the same interface rules in the polyhedral domain (real eliminations, symbolic constants): a sample of the
+    # quotient jobs of C02 and the composition jobs of C01, both simplify settings
+    from . import C01, C02
+
+    npoly = 24 if tier == "quick" else 300
+    for mod, op in ((C02, "quotient"), (C01, "compose")):
+        js = [j for j in mod.jobs("quick", seed) if j["wiring"] not in ("three-shared-inputs", "owned-pair", "three-links", "degenerate-vertex")]
+        for j in rng.sample(js, min(npoly, len(js))):
+            out.append({"kind": "poly:" + op, "op": "poly", "mode": "polyhedral", "sub": op, "job": dict(j, simplify=rng.random() < 0.5), "topo": [], "lists": {}, "alias": False})
     return out
 
 
@@ -77,7 +86,55 @@ def well_formed(ctx, c, label):
     return ins, outs
 
 
+def run_poly(ctx, job):
+    """Quotient / composition of polyhedral contracts: result and operands well formed, interface as prescribed."""
+    from pacti.utils.errors import IncompatibleArgsError
+
+    j = job["job"]
+    ctx.tag("op:" + job["sub"])
+    ctx.tag("mode:polyhedral")
+    if job["sub"] == "quotient":
+        c1 = B.mk_contract(ctx, j["c"], "c")
+        c2 = B.mk_contract(ctx, j["c1"], "d")
+        request = list(j["add"])
+    else:
+        c1 = B.mk_contract(ctx, j["c1"], "c1")
+        c2 = B.mk_contract(ctx, j["c2"], "c2")
+        if j["order"] == "21":
+            c1, c2 = c2, c1
+        request = list(j["keep"])
+    ifc = [([v.name for v in c.inputvars], [v.name for v in c.outputvars]) for c in (c1, c2)]
+    (i1, o1), (i2, o2) = ifc
+    tac = None if j["tactics"] is None else list(j["tactics"])
+    ref = T.ref_quotient(i1, o1, i2, o2, request) if job["sub"] == "quotient" else T.ref_compose(i1, o1, i2, o2, request)
+    try:
+        if job["sub"] == "quotient":
+            r, _ = c1.quotient_tactics(c2, [B.Var(n) for n in request], j["simplify"], tac)
+        else:
+            r, _ = c1.compose_tactics(c2, [B.Var(n) for n in request], j["simplify"], tac)
+    except IncompatibleArgsError:
+        cls = "IAE"
+    except ValueError:
+        cls = "VE"
+    except Exception as e:
+        ctx.expect("only-documented-exceptions", False, info=B.classify(e) + "@" + B.innermost_pacti_frame(e))
+        return {"cls": B.classify(e)}
+    else:
+        cls = "OK"
+        ctx.expect("meaningless-request-rejected", ref is not None, info=f"request={request}")
+        ins, outs = well_formed(ctx, r, job["sub"] + "-")
+        if ref is not None:
+            ctx.expect("interface-as-prescribed", set(ins) == set(ref[0]) and set(outs) == set(ref[1]), info=f"request={request}: in={ins} out={outs} expected in={ref[0]} out={ref[1]}")
+    # whatever happened, the operands are still the well-formed contracts they were
+    for name, c, (ci, co) in (("first", c1, ifc[0]), ("second", c2, ifc[1])):
+        xi, xo = well_formed(ctx, c, job["sub"] + "-operand-")
+        ctx.expect("operands-keep-their-interface", xi == ci and xo == co, info=f"{name}: {xi} {xo}")
+    return {"cls": cls}
+
+
 def run(ctx, job):
+    if job["op"] == "poly":
+        return run_poly(ctx, job)
     ctx.scripted = True
     from pacti.iocontract import IoContract, Var
     from pacti.utils.errors import IncompatibleArgsError
